@@ -137,7 +137,7 @@ PROPS = {
                        "R-SIB: every handler allocates the x index of a point before its y index, so results do not depend on which observation touches a point first. The other equivalences (translation, rotation of the circle, permutation, renaming, units) relate different runs and are not decided.",
     },
     "C12": {
-        "rules": [esc.rule_esc_adjxml, esc.rule_str2xml, fsm2.rule_xsd_adjxml, esc.rule_ysign, lin.rule_unit, dead.rule_dead_local],
+        "rules": [esc.rule_esc_adjxml, esc.rule_str2xml, fsm2.rule_xsd_adjxml, esc.rule_ysign, lin.rule_unit, dead.rule_dead_local, mpt.rule_mpt_c12],
         "explanation": "R-ESC: three-valued taint analysis (clean / sanitised / tainted, field-based, function summaries) - no PointID, "
                        "description, extern value or exception message reaches a markup sink of LocalNetworkXML, its observation visitor, "
                        "XMLerror, the HTML and SVG writers unsanitised; the sanitiser str2xml maps < > & \" ' to the right entities; the "
